@@ -537,7 +537,7 @@ class Function:
             return ("ctor", nd.get("ctor_rec"), args)
         if k in ("BinaryOperator", "CompoundAssignOperator"):
             ks = self.kids(i)
-            return canon_binop(nd["op"], self.term(ks[0]), self.term(ks[1]), nd.get("is") is False)
+            return canon_binop(nd["op"], self.term(ks[0]), self.term(ks[1]), nd.get("is") is False, nd.get("iw"))
         if k == "UnaryOperator":
             ks = self.kids(i)
             op = nd["op"]
@@ -658,7 +658,7 @@ def _log2_exact(v):
     return v.bit_length() - 1 if isinstance(v, int) and v > 0 and v & (v - 1) == 0 else None
 
 
-def canon_binop(op, a, b, unsigned):
+def canon_binop(op, a, b, unsigned, width=None):
     """One spelling for arithmetic that has several: on unsigned operands x / 2^k is x >> k, x % 2^k is x & (2^k - 1),
     (x >> k) * 2^k and (x >> k) << k are x & ~(2^k - 1); size() != 0 is size() > 0."""
     if unsigned and op in ("/", "%") and b[0] == "const":
@@ -674,11 +674,12 @@ def canon_binop(op, a, b, unsigned):
     if unsigned and op == "<<" and b[0] == "const" and a[0] == "op" and a[1] == ">>" and a[3] == b:
         return ("op", "&", a[2], ("const", -(1 << b[1])))
     if op == "&":
-        # a mask with the top bit set has one spelling: the negative number it is in two's complement (~3 == -4, however wide)
+        # a mask that has every bit from k up to the top bit *of the type the operation is carried out in* set has one
+        # spelling: the negative number it is in two's complement (~3 == -4). The width matters: 0xFFFFFFFC is -4 in a 32-bit
+        # operation, but zero-extended to 64 bits (`offset64 & ~3u`) it also clears bits 32..63 and is left as it is.
         for x, c in ((a, b), (b, a)):
-            if c[0] == "const" and c[1] >= (1 << 31) and any(c[1] == (1 << w) - (1 << k) for w in (32, 64) for k in range(0, 16)):
-                w = 32 if c[1] < (1 << 32) else 64
-                return ("op", "&", x, ("const", c[1] - (1 << w)))
+            if c[0] == "const" and width in (32, 64) and c[1] >= (1 << (width - 1)) and any(c[1] == (1 << width) - (1 << k) for k in range(0, 16)):
+                return ("op", "&", x, ("const", c[1] - (1 << width)))
     if unsigned and op == "*":
         # x * (1 << k) is x << k
         for x, c in ((a, b), (b, a)):
